@@ -29,7 +29,7 @@ pub fn scenario_sets(tier: Tier) -> Vec<Entry> {
     }
     // C18 long idle runs
     for contacts in 1..=3usize {
-        let cfg = super::c18::Cfg { contacts, outages: false, minutes: tier.pick(10, 60), latency: 20, unreachable_hearsay: contacts == 2, rng_seed: 1 };
+        let cfg = super::c18::Cfg { contacts, outages: false, minutes: tier.pick(10, 60), latency: 20, unreachable_hearsay: contacts == 2, search_every_ms: None, send_delay_ms: 0, rng_seed: 1 };
         v.push(Entry {
             desc: json!({"set":"C18-idle","contacts":contacts}),
             real_nodes: vec![super::c18::node_addr()],
@@ -57,6 +57,23 @@ pub fn scenario_sets(tier: Tier) -> Vec<Entry> {
                 }),
             });
         }
+    }
+    // one node running more than a full block (2048) of searches: every search is a new activity
+    {
+        let n_searches: usize = 2_100;
+        v.push(Entry {
+            desc: json!({"set":"many-searches","searches":n_searches}),
+            real_nodes: vec![super::single::node_addr(false)],
+            run: Box::new(move || {
+                let cfg = super::single::NodeCfg { v6: false, read_only: true, table: 3, store: false };
+                let mut b = super::single::build(&cfg, 0, 1);
+                for j in 0..n_searches {
+                    b.sc.actions.push((sim::When::At(3_000 + 1_700 * j as u64), sim::Action::Search { node: 0, info_hash: btdht::InfoHash::sha1(format!("many-{j}").as_bytes()), announce: j % 3 == 0, tag: format!("m{j}") }));
+                }
+                b.sc.horizon_ms = 3_000 + 1_700 * n_searches as u64 + 5_000;
+                super::single::run_built(b)
+            }),
+        });
     }
     for e in super::extra_universal_sets(tier) {
         v.push(e);
